@@ -97,11 +97,14 @@ func (c *Client) SubscriptionIDs() []uint32 {
 // All subscriptions are deleted and forgotten before the first one is
 // created again since the server may hand out the id of an old subscription
 // for a new one, e.g. after a restart.
+//
+// A subscription which cannot be created again, e.g. because the connection
+// is lost once more, is kept as a stale subscription and is created with
+// the next call, i.e. at the end of the next reconnect.
 func (c *Client) recreateSubscriptions(ctx context.Context, ids []uint32) int {
 	c.subMux.Lock()
 	defer c.subMux.Unlock()
 
-	var subs []*Subscription
 	for _, id := range ids {
 		sub, ok := c.subs[id]
 		if !ok {
@@ -110,17 +113,20 @@ func (c *Client) recreateSubscriptions(ctx context.Context, ids []uint32) int {
 		}
 		sub.recreate_delete(ctx)
 		c.forgetSubscription_NeedsSubMuxLock(ctx, id)
-		subs = append(subs, sub)
+		c.staleSubs = append(c.staleSubs, sub)
 	}
 
 	n := 0
-	for _, sub := range subs {
+	var stale []*Subscription
+	for _, sub := range c.staleSubs {
 		if err := c.recreateSubscription_NeedsSubMuxLock(ctx, sub); err != nil {
 			debug.Printf("recreate subscription failed: %v", err)
+			stale = append(stale, sub)
 			continue
 		}
 		n++
 	}
+	c.staleSubs = stale
 	return n
 }
 
@@ -136,7 +142,29 @@ func (c *Client) recreateSubscription_NeedsSubMuxLock(ctx context.Context, sub *
 		return err
 	}
 
-	return sub.recreate_monitoredItems(ctx)
+	if err := sub.recreate_monitoredItems(ctx); err != nil {
+		// the new subscription is incomplete. Start from scratch next time.
+		sub.recreate_delete(ctx)
+		c.forgetSubscription_NeedsSubMuxLock(ctx, sub.SubscriptionID)
+		return err
+	}
+	return nil
+}
+
+// forgetStaleSubscription removes the subscription from the list of
+// subscriptions which are waiting to be recreated. It returns false
+// if the subscription is not on that list.
+func (c *Client) forgetStaleSubscription(sub *Subscription) bool {
+	c.subMux.Lock()
+	defer c.subMux.Unlock()
+
+	for i, s := range c.staleSubs {
+		if s == sub {
+			c.staleSubs = slices.Delete(c.staleSubs, i, i+1)
+			return true
+		}
+	}
+	return false
 }
 
 // transferSubscriptions ask the server to transfer the given subscriptions
